@@ -14,13 +14,13 @@ Definition read_typed (U : file -> res kust) (f : file) : res kust :=
   do k <- U f; Ok (fix_kustomization k).
 
 Definition write_file (R : kust -> string -> list line) (f : file) (k : kust) : file :=
-  mkFile (marshal (parse_commented_fields f) (render_field R k)) None.
+  mkFile (marshal (parse_commented_fields f) (trailing_kept f) (render_field R k)) None.
 
 (* Domain of the go-yaml round-trip assumption for one write: every comment line marshal re-emits
    is [plain], and no rendered field contains a blank or comment-looking line (no multi-line string
    value with such a line).  Outside it a re-emitted comment can be lexed as scalar content. *)
 Definition write_is_plain (R : kust -> string -> list line) (f : file) (k : kust) : bool :=
-  forallb plain_comment (kept_comments (parse_commented_fields f)) &&
+  forallb plain_comment (kept_comments (parse_commented_fields f) ++ trailing_kept f) &&
   forallb (fun n => forallb (fun l => negb (is_comment_or_blank l)) (render_field R k n)) gen_field_order.
 
 (* the command line tool: outcome class and the file afterwards *)
